@@ -21,6 +21,14 @@ if REPO != "/repo":
         shutil.copyfile(os.path.join(C18, _f), os.path.join(_alt, _f))
     if not os.path.islink(os.path.join(_alt, "src")):
         os.symlink(os.path.join(C18, "src"), os.path.join(_alt, "src"))
+    os.makedirs(os.path.join(_alt, "shimbuild", ".cargo"), exist_ok=True)
+    _ms = (open(os.path.join(C18, "shimbuild", "Cargo.toml")).read().replace('path = "/repo"', f'path = "{REPO}"')
+           .replace('path = "../shim-rayon"', f'path = "{os.path.join(C18, "shim-rayon")}"'))
+    open(os.path.join(_alt, "shimbuild", "Cargo.toml"), "w").write(_ms)
+    shutil.copyfile(os.path.join(C18, "shimbuild", "Cargo.lock"), os.path.join(_alt, "shimbuild", "Cargo.lock"))
+    shutil.copyfile(os.path.join(C18, ".cargo", "config.toml"), os.path.join(_alt, "shimbuild", ".cargo", "config.toml"))
+    if not os.path.islink(os.path.join(_alt, "shimbuild", "src")):
+        os.symlink(os.path.join(C18, "src"), os.path.join(_alt, "shimbuild", "src"))
     C18 = _alt
 ENV = dict(os.environ, CARGO_NET_OFFLINE="true")
 MIRIFLAGS = ("-Zmiri-disable-stacked-borrows -Zmiri-permissive-provenance -Zmiri-ignore-leaks "
@@ -38,6 +46,23 @@ def build():
             print(r.stderr[-4000:])
             print("HARNESS-ERROR: c18sim build failed")
             sys.exit(2)
+
+
+def build_shim():
+    r = subprocess.run(["cargo", "build", "--offline", "--quiet", "--release", "--features", "par", "--target-dir", "../target/shim"],
+                       cwd=os.path.join(C18, "shimbuild"), env=ENV, capture_output=True, text=True)
+    if r.returncode != 0:
+        # a change that uses a rayon API the shim does not provide: the shim engine is skipped (said so in
+        # the evidence), the Miri and native engines still run
+        return r.stderr[-1500:]
+    return None
+
+
+def shim_run(first, count, sched_seed):
+    env = dict(ENV, C18_SCHED_SEED=str(sched_seed))
+    r = subprocess.run([os.path.join(C18, "target", "shim", "release", "c18sim"), str(first), "4", "full", str(count)],
+                       cwd=C18, env=env, capture_output=True, text=True)
+    return (outs(r.stdout) if r.returncode == 0 else None), r.stderr[-300:]
 
 
 def outs(text):
@@ -124,6 +149,46 @@ def main(prop, tier, seed):
             violations.append(path)
             print(f"  schedule-dependent-output: input {inp} pool {pool} rate {rate} seed {culprit}")
             print(f"VIOLATION property=C18 replay={path}")
+    # ---- controlled task-level schedules: the seeded shim scheduler in place of the thread pool
+    from concurrent.futures import ThreadPoolExecutor
+    shim_err = build_shim()
+    shim_runs = 0
+    shim_seeds = 0
+    n_inputs = 200 if tier == "quick" else 3000
+    n_seeds = 16 if tier == "quick" else 64
+    first = seed * 100000
+    if shim_err is None:
+        ref, err = native("serial", first, n_inputs, 1, False)
+        if ref is None:
+            print(f"HARNESS-ERROR: serial driver failed: {err}")
+            return 2
+        seeds = [seed * 7919 + k for k in range(n_seeds)]
+        with ThreadPoolExecutor(max_workers=16) as ex:
+            results = list(ex.map(lambda s: (s, shim_run(first, n_inputs, s)), seeds))
+        for s_, (got, err) in results:
+            if got is None:
+                print(f"HARNESS-ERROR: shim driver failed at schedule seed {s_}: {err}")
+                return 2
+            shim_seeds += 1
+            for (r_, g_) in zip(ref, got):
+                shim_runs += 1
+                if r_[1] != g_[1]:
+                    path = os.path.join(ROOT, "replays", f"C18-shim-input{r_[0]}-sched{s_}.json")
+                    json.dump(dict(property="C18", engine="shim (seeded task-level scheduler; exactly replayable)", input=r_[0], desc=r_[2],
+                                   schedule_seed=s_, expected=r_[1], got=g_[1],
+                                   replay_cmd=f"C18_SCHED_SEED={s_} {os.path.join(C18, 'target/shim/release/c18sim')} {r_[0]} 4 full 1  # compare with target/serial/release/c18sim {r_[0]} 1 full 1"),
+                              open(path, "w"), indent=1)
+                    violations.append(path)
+                    print(f"  schedule-dependent-output: input {r_[0]} under task schedule seed {s_} ({r_[2].strip()})")
+                    print(f"VIOLATION property=C18 replay={path}")
+                    break
+            if len(violations) >= 3:
+                break
+        if len(samples) < 6:
+            samples.append(dict(engine="shim", inputs=f"{first}..{first + n_inputs}", schedule_seeds=f"{seeds[0]}..{seeds[-1]}",
+                                example_input=ref[0][2].strip()))
+    else:
+        print("NOTE: the rayon shim does not compile against this tree (an API outside its subset is used); shim engine skipped")
     # ---- uncontrolled native supplement: larger inputs, many pool sizes
     n_native = 300 if tier == "quick" else 6000
     ref, err = native("serial", seed * 100000, n_native, 1, False)
@@ -150,24 +215,30 @@ def main(prop, tier, seed):
     evid = {
         "property_id": "C18", "tier": tier, "seed": seed, "level": "exploration",
         "coverage": {
-            "evaluations": miri_runs + native_cmp,
-            "distinct_nontrivial": len(tuples),
-            "rule": ("one evaluation = one complete encode of a tiny input (file writer or raw stream writer) by the real rayon "
-                     "pool under Miri's seeded preemptive scheduler, compared byte for byte with the serial build; distinct = "
-                     "distinct (input, pool size, preemption rate, Miri seed) tuples — the interleavings they induce are not "
-                     "observable without instrumenting rayon, so this counts schedules requested, not schedules proven different; "
-                     "all are non-trivial (every input has >= 1 frame and takes a join/vec_map path); the native supplement "
-                     "(schedules not controlled) is counted in evaluations only"),
+            "evaluations": miri_runs + shim_runs + native_cmp,
+            "distinct_nontrivial": len(tuples) + shim_runs,
+            "rule": ("two controlled engines and one uncontrolled supplement, every output compared byte for byte with the build "
+                     "without the feature. (miri) one evaluation = one encode of a tiny input by the REAL rayon pool interpreted by "
+                     "Miri, whose seeded preemptive scheduler fixes the interleaving; distinct = distinct (input, pool size, "
+                     "preemption rate, Miri seed) tuples. (shim) one evaluation = one encode of a full-size input with the rayon "
+                     "API served by a seeded single-threaded task scheduler that draws task order of join / parallel iterators, "
+                     "completion order and par_bridge order from the schedule seed; distinct = distinct (input, schedule seed) "
+                     "pairs. Counted are schedules requested, not schedules proven different (that would need instrumenting "
+                     "rayon). All inputs are non-trivial (>= 1 frame through a join or vec_map path). (native) real rayon, "
+                     "schedules not controlled: counted in evaluations only"),
             "samples": samples,
             "exhaustive": False,
             "miri_controlled_runs": miri_runs,
+            "shim_controlled_runs": shim_runs,
+            "shim_schedule_seeds": shim_seeds,
+            "shim_engine_skipped_reason": shim_err,
             "native_uncontrolled_comparisons": native_cmp,
             "paths_taken_under_miri": paths,
             "pool_sizes": sorted({p[1] for p in plans}),
             "preemption_rates": sorted({p[2] for p in plans}),
             "runs_per_hour": int(miri_runs / max(wall, 1e-3) * 3600),
             "real_components": ["flac-codec with feature rayon", "rayon", "rayon-core", "crossbeam-deque/epoch/utils", "std threads (interpreted by Miri)"],
-            "stub_components": ["thread scheduler (Miri, seeded)", "in-memory sink (Cursor<Vec<u8>>)"],
+            "stub_components": ["thread scheduler (Miri, seeded)", "shim engine: the rayon crate itself (seeded task scheduler, /verif/c18/shim-rayon)", "in-memory sink (Cursor<Vec<u8>>)"],
             "fault_kinds": {"preemption at arbitrary points (Miri scheduler)": miri_runs},
         },
         "assumptions": ["Miri's scheduler explores preemptive interleavings of the interpreted program; weak-memory emulation on",
@@ -176,6 +247,6 @@ def main(prop, tier, seed):
         "violations": len(violations),
     }
     json.dump(evid, open(os.path.join(ROOT, "evidence", "C18.json"), "w"), indent=1)
-    print(f"[C18 {tier}] miri_runs={miri_runs} distinct_schedule_tuples={len(tuples)} native_comparisons={native_cmp} "
+    print(f"[C18 {tier}] miri_runs={miri_runs} shim_runs={shim_runs} distinct_schedule_tuples={len(tuples) + shim_runs} native_comparisons={native_cmp} "
           f"violations={len(violations)} wall={wall:.1f}s")
     return 1 if violations else 0
